@@ -76,8 +76,12 @@ REF_FUNCS = {
 }
 SELF_ARRAY = [1.0]
 SELF_ARRAY.append(SELF_ARRAY)       # an array that contains itself: it has no JSON text; read-only host global `sa`, never part of a state
+DEEP_ARRAY = []
+for _ in range(3000):               # an array nested deeper than any recursive encoder can follow; read-only host global `dp`
+    DEEP_ARRAY = [DEEP_ARRAY]
+DEEP_INNER = DEEP_ARRAY[0]
 HUGE = 10 ** 400                    # a host integer beyond the float range (finite, integral): read-only host globals `big`, `nbig` (F22)
-CONSTS = {'dt': datetime.datetime(2020, 1, 2, 3, 4, 5), 'rx': re.compile('a'), 'sa': SELF_ARRAY, 'big': HUGE, 'nbig': -HUGE}
+CONSTS = {'dt': datetime.datetime(2020, 1, 2, 3, 4, 5), 'rx': re.compile('a'), 'sa': SELF_ARRAY, 'dp': DEEP_ARRAY, 'big': HUGE, 'nbig': -HUGE}
 NONFINITE = {'inf': float('inf'), 'nan': float('nan')}
 
 
@@ -126,14 +130,16 @@ WRONG = {
 }
 
 
-def wrong_values(ptype, nullable=False, table=None, negative_huge=False):
+def wrong_values(ptype, nullable=False, table=None, negative_huge=False, deep=True):
     """[(label, descriptor)] of the invalid values tried for one typed parameter: one value of every other type (null
-    unless accepted), the self-containing array `sa` (a wrong-typed value that has no JSON text) unless arrays are
-    accepted, and - for number parameters, all of which are integer-constrained here - an infinite and a NaN number
+    unless accepted), the self-containing array `sa` (a wrong-typed value that has no JSON text) and the 3000-levels-deep array `dp` (no encoder can follow it) unless
+    arrays are accepted, and - for number parameters, all of which are integer-constrained here - an infinite and a NaN number
     and the host integer 10**400 (beyond the float range; its negative too in the single-call families)."""
     out = [(t, w) for t, w in (table or WRONG).items() if t != ptype and not (t == 'null' and nullable)]
     if ptype != 'array':
         out.append(('array:self-containing', const('sa')))
+        if deep:
+            out.append(('array:nested-3000-deep', const('dp')))
     if ptype == 'number':
         out.append(('number:inf', nonfinite('inf')))
         out.append(('number:nan', nonfinite('nan')))
@@ -145,8 +151,8 @@ def wrong_values(ptype, nullable=False, table=None, negative_huge=False):
 
 def n_wrong(ptype, nullable=False, negative_huge=False):
     """Closed form of len(wrong_values(...)): nine types minus the accepted one, minus null when nullable, plus the
-    self-containing array when arrays are not accepted, plus inf, NaN and 10**400 (and -10**400) for numbers."""
-    return 8 - (1 if nullable else 0) + (0 if ptype == 'array' else 1) + ((4 if negative_huge else 3) if ptype == 'number' else 0)
+    self-containing and the deep array when arrays are not accepted, plus inf, NaN and 10**400 (and -10**400) for numbers."""
+    return 8 - (1 if nullable else 0) + (0 if ptype == 'array' else 2) + ((4 if negative_huge else 3) if ptype == 'number' else 0)
 
 
 def impl_guard(default=None):
@@ -169,8 +175,18 @@ def impl_guard(default=None):
     return wrap
 
 
+def opaque(value):
+    """The self-containing and the deep host arrays as opaque tagged leaves (they must never be canonicalised)."""
+    if value is DEEP_ARRAY:
+        return '<host global dp>'
+    if value is SELF_ARRAY:
+        return '<host global sa>'
+    return value
+
+
 def self_array_intact():
-    return len(SELF_ARRAY) == 2 and SELF_ARRAY[0] == 1.0 and SELF_ARRAY[1] is SELF_ARRAY
+    return (len(SELF_ARRAY) == 2 and SELF_ARRAY[0] == 1.0 and SELF_ARRAY[1] is SELF_ARRAY
+            and len(DEEP_ARRAY) == 1 and DEEP_ARRAY[0] is DEEP_INNER)     # identity only: never walk the deep array
 
 
 def ref_value(arg, pool):
@@ -199,6 +215,9 @@ class Par:
         self.nullable = nullable
         self.optional = optional
         self.base = valid[0] if base is None else base
+
+
+DEEP_IN_BFS = ('arrayIndexOf', 'arrayLastIndexOf', 'arrayLength', 'objectHas', 'objectGet')
 
 
 def alphabet(L):  # pylint: disable=too-many-locals,too-many-statements
@@ -250,7 +269,9 @@ def alphabet(L):  # pylint: disable=too-many-locals,too-many-statements
         for pos, p in enumerate(pars):
             if p.type is None:
                 continue
-            for _, w in wrong_values(p.type, p.nullable):
+            # the deep array costs a RecursionError inside the implementation (~0.2 ms): in the BFS alphabet only where the
+            # failure value is not null, i.e. where a wrong failure value is observable; everywhere in the single-call families
+            for _, w in wrong_values(p.type, p.nullable, deep=name in DEEP_IN_BFS):
                 events.append((name, base[:pos] + [w] + base[pos + 1:]))
         # 3. a missing required argument (every shorter argument list), 4. a surplus argument
         for m in range(0, required):
@@ -262,7 +283,7 @@ def alphabet(L):  # pylint: disable=too-many-locals,too-many-statements
             events.append(('arrayNew', list(combo)))
             for a in arr:
                 events.append(('arrayPush', [a] + list(combo)))
-    for _, w in wrong_values('array'):
+    for _, w in wrong_values('array', deep=False):
         events.append(('arrayPush', [w, num(1)]))
     events.append(('arrayPush', []))
     events.append(('objectNew', []))
@@ -274,7 +295,7 @@ def alphabet(L):  # pylint: disable=too-many-locals,too-many-statements
                     events.append(('objectNew', [k1, v1, k2, v2]))
     events.append(('objectNew', [lit('k1')]))                       # a key without a value: left open
     events.append(('objectNew', [lit('k1'), num(1), lit('k2')]))
-    for _, w in wrong_values('string'):
+    for _, w in wrong_values('string', deep=False):
         events.append(('objectNew', [w, num(1)]))
         events.append(('objectNew', [lit('k1'), num(1), w, num(1)]))
     out = []
@@ -482,7 +503,7 @@ def run_event(rt, st, ei, acc, number=None):
         return None
     acc.evals += 1
     acc.transitions += 1
-    got = G.get('rr')
+    got = opaque(G.get('rr'))
     if name == 'objectKeys' and isinstance(got, list) and all(isinstance(k, str) for k in got):
         got = sorted(got)       # the order of the keys is not documented
     word = 'failure value' if out.failed else 'result'
@@ -764,6 +785,7 @@ def check_strings(case, acc):
     out = rl.call(name, [sref_value(a) for a in args])
     try:
         got, text = srt.call(name, args)
+        got = opaque(got)
     except Exception as exc:  # pylint: disable=broad-exception-caught
         acc.violation(case, 'the call returns', f'{type(exc).__name__}: {exc}', 'an exception escapes execute_script')
         return None
@@ -887,7 +909,7 @@ def bad_calls(name):
 def check_bad_call(case, acc):
     bs = load_impl()
     args = [ref_value(dict(wrong_values('string'))[case['wrong']], {'bb': [], 'oo': {}})] if 'wrong' in case else ['a'] * case['nargs']
-    got = impl_call(bs, case['fn'], args)
+    got = opaque(impl_call(bs, case['fn'], args))
     acc.evals += 1
     if got is not None:
         acc.violation(case, None, got, f"{case['fn']} with a wrong-typed, missing or surplus argument does not return null")
@@ -904,6 +926,7 @@ ALLOWED = {
     'urlEncodeComponent': UNRESERVED | frozenset("!*'()"),
     'urlEncode': UNRESERVED | frozenset("!*'();/?:@&=+$,#[]"),
 }
+URL_SURROGATES = ['\ud83d', 'a\udc00b']      # lone surrogate code points (stringFromCharCode(55357)): no UTF-8 encoding exists
 URL_EXTRA = ['%41', '%zz', 'a%2', '%%%', 'a b', 'ééé']
 HEX = frozenset('0123456789ABCDEFabcdef')
 
@@ -940,6 +963,9 @@ def check_url(case, acc):
         enc = impl_call(bs, name, [s])
         acc.evals += 1
         c2 = dict(case, fn=name)
+        if enc is None and any(0xD800 <= ord(ch) <= 0xDFFF for ch in s):
+            obs.append(None)        # a string that cannot be encoded: a failed call (null) is fine; a text must still round-trip
+            continue
         if not isinstance(enc, str):
             acc.violation(c2, 'a string', enc, f'{name} of a string is not a string')
             continue
@@ -985,7 +1011,7 @@ def fam_url(arg):
             acc.outcome(obs)
         acc.sample({'s': first + '/', 'urlEncodeComponent': impl_call(load_impl(), 'urlEncodeComponent', [first + '/']), 'urlEncode': impl_call(load_impl(), 'urlEncode', [first + '/'])})
     if firsts and firsts[0] == 0:
-        for s in [''] + URL_EXTRA:
+        for s in [''] + URL_EXTRA + URL_SURROGATES:
             acc.cases += 1
             obs = check_url({'s': s}, acc)
             acc.outcome(obs)
@@ -1536,7 +1562,7 @@ def families(tier):
                f'every ordered pair (s, t) of the {nrx} strings of length <= 2 over the 32 ASCII punctuation characters + a, 0, space', expected=nrx * nrx + n_wrong('string') + 2),
         Family('url', fam_url, split(list(range(nurl)), 32),
                f'every string of length 1..2 over {nurl} characters (128 ASCII + 6 non-ASCII) + "" + {len(URL_EXTRA)} longer percent cases; both functions',
-               expected=nurl * (nurl + 1) + 1 + len(URL_EXTRA) + 2 * (n_wrong('string') + 2)),
+               expected=nurl * (nurl + 1) + 1 + len(URL_EXTRA) + len(URL_SURROGATES) + 2 * (n_wrong('string') + 2)),
         Family('fresh', fam_fresh, list(FRESH_SIZES),
                'histories r1 = f(args); mutate r1 in place (arrayPush/arrayPop/arraySet or objectSet/objectDelete through the library, append/clear directly); '
                'r2 = f(same args), for the 8 container-returning functions of the property (stringSplit, arrayCopy, arraySlice, arrayNew, arrayNewSize, objectCopy, '
